@@ -165,7 +165,7 @@ class Module:
         self.build_s = time.time() - t0
         return self
 
-    def link_goto(self, mains_text, defines=(), nthreads=1, heap=8192, stack=8192, scalar_mem=False, preempt=False):
+    def link_goto(self, mains_text, defines=(), nthreads=1, heap=8192, stack=8192, scalar_mem=False, preempt=False, hb=False):
         """module.c + all query entry functions + runtime -> one goto binary (parsed once, queried many times)."""
         t0 = time.time()
         mains = os.path.join(self.outdir, 'mains.c')
@@ -191,6 +191,15 @@ class Module:
             # no early return: merging 128 early-return states costs O(n^2) phi assignments per symbolic write
             h += ['  if (i == %d) VP_S%d = v;' % (i, i) for i in range(words)]
             h.append('}')
+            if hb:
+                h.append('uint32_t ' + ', '.join('VP_H%d' % i for i in range(words)) + ';')
+                h.append('static inline uint32_t vp_hrd(uint64_t i) {')
+                h += ['  if (i == %d) return VP_H%d;' % (i, i) for i in range(words)]
+                h.append('  return 0;\n}')
+                h.append('static inline void vp_hwr(uint64_t i, uint32_t v) {')
+                h += ['  if (i == %d) VP_H%d = v;' % (i, i) for i in range(words)]
+                h.append('}')
+                self.defines.append('VP_HB=1')
             open(os.path.join(self.outdir, 'vp_scalar_mem.h'), 'w').write('\n'.join(h) + '\n')
             self.defines.append('VP_SCALAR_MEM=1')
         self.gb = os.path.join(self.outdir, 'module.gb')
@@ -237,7 +246,8 @@ def run_cbmc(name, gb, entry, outdir, unwind=8, unwindset=(), timeout=300, mem_g
     cmd += ['--no-standard-checks', '--unwind', str(unwind), '--unwinding-assertions',
             '--drop-unused-functions', '--max-field-sensitivity-array-size', str(words + 8), '--verbosity', '8']
     rt_loops = ['vp_memset.0:34', 'vp_memset.1:130', 'vp_memcpy.0:34', 'vp_memcpy.1:130', 'vp_memcpy.2:130', 'vp_free.0:10',
-                'vp_malloc.0:10', 'vp_malloc.1:66', 'vp_alloca.0:10', 'vp_alloca.1:66', 'vp_stack_restore.0:20']
+                'vp_malloc.0:10', 'vp_malloc.1:66', 'vp_alloca.0:10', 'vp_alloca.1:66', 'vp_stack_restore.0:20',
+                'vp_hb_thread_start.0:6', 'vp_hb_atomic.0:6', 'vp_hb_atomic.1:6', 'vp_hb_fence.0:6', 'vp_hb_fence.1:6']
     for u in rt_loops + list(unwindset):
         cmd += ['--unwindset', u]
     if trace_prop:
